@@ -36,11 +36,21 @@ def scenario(rng):
     # user1 imports the counter, possibly through an import set
     path1 = rng.choice(["(lib counter)", "(prefix (lib counter) k-)", "(rename (lib counter) (next! advance!))", "(only (lib counter) next!)"])
     call1 = {"(lib counter)": "next!", "(prefix (lib counter) k-)": "k-next!", "(rename (lib counter) (next! advance!))": "advance!", "(only (lib counter) next!)": "next!"}[path1]
-    libs.append("(define-library (lib user) (import (scheme base) %s) (export use1! (rename twice double)) (begin (define (%s k) (* k 100)) (define (use1!) (list 'u1 (%s))) "
-                "(define (twice x) (%s x))))" % (path1, hp, call1, hp))
+    # a library that exports a MACRO; (lib user) may import it. The program never imports it: its own procedure of that name stays a procedure
+    exports_macro = rng.random() < 0.3
+    if exports_macro:
+        libs.append("(define-library (lib mac) (import (scheme base)) (export mtwice) (begin (define-syntax mtwice (syntax-rules () ((mtwice e) (list e e))))))")
+    first = rng.random() < 0.5       # the counter (and not (scheme base)) may be the first import set of the user libraries
+    imps = ("%s (scheme base)" if first else "(scheme base) %s") % path1 + (" (lib mac)" if exports_macro else "")
+    libs.append("(define-library (lib user) (import %s) (export use1! (rename twice double)) (begin (define (%s k) (* k 100)) (define (use1!) (list 'u1 (%s))) "
+                "(define (twice x) (%s x))))" % (imps, hp, call1, hp))
+    # a library that assigns names it imported from the counter (and never uses them itself): nobody else's view of the counter changes
+    libs.append("(define-library (lib clobber) (import (lib counter) (scheme base)) (export clobber!) (begin (define (clobber!) (set! next! (lambda () 'clobbered)) (set! reset! 5) 'done)))")
     have["user"] = ["use1!", "double"]
+    have["clobber"] = ["clobber!"]
     if rng.random() < 0.7:
-        libs.append("(define-library (lib user two) (import (scheme base) (lib user) (lib counter)) (export use2!) (begin (define (use2!) (list 'u2 (car (cdr (use1!))) (next!)))))")
+        order2 = "(lib counter) (scheme base) (lib user)" if first else "(scheme base) (lib user) (lib counter)"
+        libs.append("(define-library (lib user two) (import %s) (export use2!) (begin (define (use2!) (list 'u2 (car (cdr (use1!))) (next!)))))" % order2)
         have["user two"] = ["use2!"]
     if rng.random() < 0.6:
         libs.append("(define-library (lib leaky) (import (scheme base)) (export leak get-plus) (begin (define (leak) importer-var) (define (get-plus a b) (+ a b))))")
@@ -129,7 +139,7 @@ def scenario(rng):
         c = rng.random()
         if c < 0.4:
             calls = []
-            for base, args in ((hop or "next!", ""), ("next!", ""), ("z:next!", ""), ("counter-next!", ""), ("z:counter-next!", ""), ("z:" + pk, ""), ("use1!", ""), ("use2!", ""), (pk, ""), ("double", " 3"), ("outer", " 7"), ("get-plus", " 20 5"), ("get-low", ""), ("rboth", "")):
+            for base, args in ((hop or "next!", ""), ("clobber!", ""), ("next!", ""), ("z:next!", ""), ("counter-next!", ""), ("z:counter-next!", ""), ("z:" + pk, ""), ("use1!", ""), ("use2!", ""), (pk, ""), ("double", " 3"), ("outer", " 7"), ("get-plus", " 20 5"), ("get-low", ""), ("rboth", "")):
                 if base in avail:
                     calls.append("(%s%s)" % (avail[base], args))
             if calls:
@@ -139,7 +149,10 @@ def scenario(rng):
         elif c < 0.62:
             # definitions colliding with library internals / with the library's imports
             forms.append(rng.choice(["(define %s %d)" % (st, uniq()), "(define (%s k) %d)" % (hp, uniq()), "(define %s %d)" % (pk_internal, uniq()),
-                                     "(define + -)", "(define (car x) 'importer-car)", "(define * list)", "(define importer-var %d)" % uniq(), "(define set-marker 1)"]))
+                                     "(define + -)", "(define (car x) 'importer-car)", "(define * list)", "(define importer-var %d)" % uniq(), "(define set-marker 1)",
+                                     "(define (mtwice x) (* 2 x))"]))
+            if "mtwice" in forms[-1] or rng.random() < 0.1:
+                forms.append(rng.choice(["(mtwice 21)", "(list (mtwice 4))"]) if any("(define (mtwice" in f for f in forms) else "(+ 1 1)")
         elif c < 0.72:
             # redefinition / assignment of an imported name in the importer
             if avail:
